@@ -172,6 +172,13 @@ def run(ctx):
                 il0 += -ils * n[0]
             if xls < 0:
                 xl0 += -xls * n[1]
+            if k % 4 == 3:
+                # an axis whose lowest line number is exactly 0, or below 0 (slice bounds and Python's negative-index
+                # conventions meet there)
+                low = 0 if k % 8 == 3 else -2 * abs(ils)
+                il0 = low if ils > 0 else low - ils * (n[0] - 1)
+                lowx = 0 if k % 8 == 7 else -abs(xls)
+                xl0 = lowx if xls > 0 else lowx - xls * (n[1] - 1)
             il = [il0 + ils * i for i in range(n[0])]
             xl = [xl0 + xls * j for j in range(n[1])]
             plan = mksegy.header_plan(rng, n_fields=3)
